@@ -1,6 +1,7 @@
 package rules
 
 import (
+	"fmt"
 	"go/constant"
 	"go/token"
 	"go/types"
@@ -1200,70 +1201,51 @@ func c01Containers(r *an.Run) {
 	// type; on a path the candidate is the type whose atom is true, the field name is the string constant
 	// the name variable holds on that path, and a path on which every tested type is false must reject
 	code := map[string]string{}
-	isElemType := func(v ssa.Value) bool {
-		c, ok := v.(*ssa.Call)
-		return ok && c.Call.IsInvoke() && c.Call.Method.Name() == "Elem"
-	}
-	// the phi of string constants that names the statements field
-	var phi *ssa.Phi
-	for _, b := range f.Blocks {
-		for _, in := range b.Instrs {
-			if p, ok := in.(*ssa.Phi); ok {
-				allStr := len(p.Edges) > 0
-				for _, e := range p.Edges {
-					if _, ok := an.ConstString(e); !ok {
-						allStr = false
-					}
-				}
-				if allStr {
-					phi = p
-				}
-			}
-		}
-	}
-	classify := func(c ssa.Value) string {
-		cmp, ok := c.(*ssa.BinOp)
-		if !ok || cmp.Op != token.EQL {
-			if ok && cmp.Op == token.NEQ {
-				// handled by the caller through StripNot? (x != y) is not a negation in SSA: name it "not:"
-				if isElemType(cmp.X) {
-					if g := an.GlobalLoaded(cmp.Y); g != nil {
-						return "not:" + gt[g.Name()]
-					}
-				}
-			}
-			return ""
-		}
-		x, y := cmp.X, cmp.Y
-		if isElemType(y) {
-			x, y = y, x
-		}
-		if !isElemType(x) {
-			return ""
-		}
-		if g := an.GlobalLoaded(y); g != nil {
-			return "is:" + gt[g.Name()]
-		}
-		return ""
-	}
-	loopHeaders := map[*ssa.BasicBlock]bool{}
-	for _, l := range an.Loops(f) {
-		loopHeaders[l.Header] = true
-	}
-	kindTest := func(c ssa.Value) bool {
-		cmp, ok := c.(*ssa.BinOp)
-		return ok && (an.IsNamed(cmp.X.Type(), "reflect", "Kind") || an.IsNamed(cmp.Y.Type(), "reflect", "Kind"))
-	}
-	paths, perr := an.EnumeratePathsFrom(f.Blocks[0], func(c ssa.Value) string {
-		if kindTest(c) {
-			return "kind-is-ptr"
-		}
-		return classify(c)
-	}, func(b *ssa.BasicBlock) bool { return loopHeaders[b] }, 512, false)
 	okDefaultPaths := true
-	if perr != nil {
-		r.Undecided(short(f)+"|container-decision", f.Pos(), "cannot extract which types the container matcher accepts: %v", perr)
-	} else {
+	// analyze enumerates the decision of g (the matcher itself, or the private helper it asks)
+	analyze := func(g *ssa.Function, isElemType func(ssa.Value) bool, rejectsOn func(an.DPath) (bool, bool), fieldOn func(an.DPath) string) error {
+		classify := func(c ssa.Value) string {
+			cmp, ok := c.(*ssa.BinOp)
+			if !ok || cmp.Op != token.EQL {
+				if ok && cmp.Op == token.NEQ {
+					// (x != y) is not a negation in SSA: name it "not:"
+					if isElemType(cmp.X) {
+						if gl := an.GlobalLoaded(cmp.Y); gl != nil {
+							return "not:" + gt[gl.Name()]
+						}
+					}
+				}
+				return ""
+			}
+			x, y := cmp.X, cmp.Y
+			if isElemType(y) {
+				x, y = y, x
+			}
+			if !isElemType(x) {
+				return ""
+			}
+			if gl := an.GlobalLoaded(y); gl != nil {
+				return "is:" + gt[gl.Name()]
+			}
+			return ""
+		}
+		loopHeaders := map[*ssa.BasicBlock]bool{}
+		for _, l := range an.Loops(g) {
+			loopHeaders[l.Header] = true
+		}
+		kindTest := func(c ssa.Value) bool {
+			cmp, ok := c.(*ssa.BinOp)
+			return ok && (an.IsNamed(cmp.X.Type(), "reflect", "Kind") || an.IsNamed(cmp.Y.Type(), "reflect", "Kind"))
+		}
+		paths, perr := an.EnumeratePathsFrom(g.Blocks[0], func(c ssa.Value) string {
+			if kindTest(c) {
+				return "kind-is-ptr"
+			}
+			return classify(c)
+		}, func(b *ssa.BasicBlock) bool { return loopHeaders[b] }, 512, false)
+		if perr != nil {
+			return perr
+		}
 		for _, p := range paths {
 			var yes []string
 			for a, v := range p.Atoms {
@@ -1277,29 +1259,115 @@ func c01Containers(r *an.Run) {
 			if len(yes) > 1 {
 				continue // infeasible: the candidate has one type
 			}
-			rejects := an.ReturnsFailure(p.End)
+			rejects, known := rejectsOn(p)
+			if !known {
+				return fmt.Errorf("%s: cannot tell whether a path accepts or rejects", short(g))
+			}
 			if len(yes) == 0 {
 				if !rejects {
-					if kv, ok := p.Atoms["kind-is-ptr"]; !(ok && !kv) || !rejects {
-						okDefaultPaths = false
-					}
+					okDefaultPaths = false
 				}
 				continue
 			}
 			if rejects {
 				continue // a tested type that is rejected: not a container for the code
 			}
-			field := ""
-			if phi != nil {
-				if s, ok := an.ConstString(p.ResolveOnPath(phi)); ok {
-					field = s
-				}
-			}
+			field := fieldOn(p)
 			if prev, dup := code[yes[0]]; dup && prev != field {
 				field = prev + "|" + field
 			}
 			code[yes[0]] = field
 		}
+		return nil
+	}
+	stringPhi := func(g *ssa.Function) *ssa.Phi {
+		// the phi of string constants that names the statements field
+		var phi *ssa.Phi
+		for _, b := range g.Blocks {
+			for _, in := range b.Instrs {
+				if p, ok := in.(*ssa.Phi); ok {
+					allStr := len(p.Edges) > 0
+					for _, e := range p.Edges {
+						if _, ok := an.ConstString(e); !ok {
+							allStr = false
+						}
+					}
+					if allStr {
+						phi = p
+					}
+				}
+			}
+		}
+		return phi
+	}
+	phi := stringPhi(f)
+	perr := analyze(f,
+		func(v ssa.Value) bool {
+			c, ok := v.(*ssa.Call)
+			return ok && c.Call.IsInvoke() && c.Call.Method.Name() == "Elem"
+		},
+		func(p an.DPath) (bool, bool) { return an.ReturnsFailure(p.End), true },
+		func(p an.DPath) string {
+			if phi != nil {
+				if s, ok := an.ConstString(p.ResolveOnPath(phi)); ok {
+					return s
+				}
+			}
+			return ""
+		})
+	if perr != nil {
+		// the decision may have been moved into a private helper `layout, ok := h(t, ...)`: the matcher
+		// rejects when ok is false, and the helper's own table is the decision
+		if h, okIdx, herr := containerHelper(f); herr == nil {
+			code = map[string]string{}
+			okDefaultPaths = true
+			var tp *ssa.Parameter
+			for _, prm := range h.Params {
+				if an.IsNamed(prm.Type(), "reflect", "Type") {
+					tp = prm
+				}
+			}
+			hphi := stringPhi(h)
+			perr = analyze(h,
+				func(v ssa.Value) bool { return tp != nil && v == ssa.Value(tp) },
+				func(p an.DPath) (bool, bool) {
+					ret := an.ReturnOf(p.End)
+					if ret == nil || okIdx >= len(ret.Results) {
+						return false, false
+					}
+					b, isc := an.ConstBool(p.ResolveOnPath(ret.Results[okIdx]))
+					return !b, isc
+				},
+				func(p an.DPath) string {
+					if hphi != nil {
+						if s, ok := an.ConstString(p.ResolveOnPath(hphi)); ok {
+							return s
+						}
+					}
+					// the one string constant stored into a field of the returned record on this path
+					found := map[string]bool{}
+					for _, b := range p.Blocks {
+						for _, in := range b.Instrs {
+							if st, ok := in.(*ssa.Store); ok {
+								if _, isField := st.Addr.(*ssa.FieldAddr); isField {
+									if s, ok := an.ConstString(st.Val); ok {
+										found[s] = true
+									}
+								}
+							}
+						}
+					}
+					if len(found) == 1 {
+						for s := range found {
+							return s
+						}
+					}
+					return ""
+				})
+		}
+	}
+	if perr != nil {
+		r.Undecided(short(f)+"|container-decision", f.Pos(), "cannot extract which types the container matcher accepts: %v", perr)
 	}
 	for typ, field := range schema {
 		r.Check(code[typ] == field, short(f)+"|"+typ, f.Pos(), "go/ast struct %s holds statements in field %q; the container matcher handles it through field %q", typ, field, code[typ])
@@ -1633,4 +1701,38 @@ func compileLoopCovers(r *an.Run, rel, name, accessor, lenAtom, what string) int
 	}
 	r.Check(found, short(f)+"|loop", f.Pos(), "%s compiles %s(v, i) in an index loop and stores the result at [i]", short(f), accessor)
 	return nFound
+}
+
+// containerHelper recognises `x, ok := h(...)` at the start of the container
+// matcher where a false ok leads straight to the failure return: it returns h
+// and the index of the boolean among its results.
+func containerHelper(f *ssa.Function) (*ssa.Function, int, error) {
+	for _, b := range f.Blocks {
+		iff, ok := b.Instrs[len(b.Instrs)-1].(*ssa.If)
+		if !ok {
+			continue
+		}
+		cond, pos := an.StripNot(iff.Cond)
+		ex, ok := cond.(*ssa.Extract)
+		if !ok {
+			continue
+		}
+		call, ok := ex.Tuple.(*ssa.Call)
+		if !ok {
+			continue
+		}
+		h := an.StaticCallee(call)
+		if h == nil || !an.InModule(h) || h.Blocks == nil {
+			continue
+		}
+		falseSucc := b.Succs[1]
+		if !pos {
+			falseSucc = b.Succs[0]
+		}
+		if !an.ReturnsFailure(an.FollowJumps(falseSucc)) {
+			return nil, 0, fmt.Errorf("a false answer of %s does not make the matcher reject", short(h))
+		}
+		return h, ex.Index, nil
+	}
+	return nil, 0, fmt.Errorf("no helper decision")
 }
